@@ -1,0 +1,136 @@
+/**
+ * @file verif_hooks.cpp
+ * Passive observation hooks, compiled only with -DUNCRUSTIFY_VERIF.
+ * Every hook is a no-op unless its environment variable names a file.
+ */
+#ifdef UNCRUSTIFY_VERIF
+
+#include "verif_hooks.h"
+
+#include "chunk.h"
+#include "uncrustify.h"
+
+#include <cstdio>
+#include <cstdlib>
+#include <string>
+#include <vector>
+
+
+static int verif_file_index = 0;
+
+
+static FILE *verif_open(const char *var, FILE * &cache, bool &tried)
+{
+   if (!tried)
+   {
+      tried = true;
+      const char *name = getenv(var);
+
+      if (  name != nullptr
+         && name[0] != 0)
+      {
+         cache = fopen(name, "ab");
+      }
+   }
+   return(cache);
+}
+
+
+static void verif_hex(FILE *f, const UncText &text)
+{
+   if (text.size() == 0)
+   {
+      fputc('-', f);
+      return;
+   }
+
+   for (size_t idx = 0; idx < text.size(); idx++)
+   {
+      fprintf(f, "%x%s", (unsigned)text[idx], (idx + 1 < text.size()) ? "," : "");
+   }
+}
+
+
+void verif_dump_chunks(char stage)
+{
+   static FILE *f    = nullptr;
+   static bool tried = false;
+
+   if (verif_open("UNCRUSTIFY_VERIF_DUMP", f, tried) == nullptr)
+   {
+      return;
+   }
+
+   if (stage == 'T')
+   {
+      verif_file_index++;
+   }
+   fprintf(f, "#%c %d %s\n", stage, verif_file_index, cpd.filename.c_str());
+
+   for (Chunk *pc = Chunk::GetHead(); pc->IsNotNullChunk(); pc = pc->GetNext())
+   {
+      fprintf(f, "%c %s %s %zu %zu %zu %zu %zu %zu %zu %zu %d%d%d%d ",
+              stage, get_token_name(pc->GetType()), get_token_name(pc->GetParentType()),
+              pc->GetOrigLine(), pc->GetOrigCol(), pc->GetOrigColEnd(), pc->GetColumn(),
+              pc->GetLevel(), pc->GetBraceLevel(), pc->GetPpLevel(), pc->GetNlCount(),
+              pc->TestFlags(PCF_IN_PREPROC) ? 1 : 0, pc->TestFlags(PCF_INSERTED) ? 1 : 0,
+              pc->TestFlags(PCF_IN_QT_MACRO) ? 1 : 0, pc->TestFlags(PCF_STMT_START) ? 1 : 0);
+      verif_hex(f, pc->GetStr());
+      fputc('\n', f);
+   }
+
+   fflush(f);
+}
+
+static std::vector<std::string> verif_rules;
+static int                      verif_av_raw = -1;
+
+
+void verif_space_begin()
+{
+   verif_rules.clear();
+   verif_av_raw = -1;
+}
+
+
+void verif_space_raw(int av_raw)
+{
+   verif_av_raw = av_raw;
+}
+
+
+void verif_space_rule(const char *rule)
+{
+   verif_rules.push_back(rule);
+}
+
+
+void verif_space_record(Chunk *first, Chunk *second, int av_final, bool forced, int min_sp, size_t col_delta)
+{
+   static FILE *f    = nullptr;
+   static bool tried = false;
+
+   if (verif_open("UNCRUSTIFY_VERIF_SPACE", f, tried) == nullptr)
+   {
+      return;
+   }
+   fprintf(f, "%d %zu %zu %s %zu %zu %s %d %d %d %d %zu %d ",
+           verif_file_index, first->GetOrigLine(), first->GetOrigCol(), get_token_name(first->GetType()),
+           second->GetOrigLine(), second->GetOrigCol(), get_token_name(second->GetType()),
+           verif_av_raw, av_final, forced ? 1 : 0, min_sp, col_delta,
+           (first->TestFlags(PCF_IN_QT_MACRO) || second->TestFlags(PCF_IN_QT_MACRO)) ? 1 : 0);
+   verif_hex(f, first->GetStr());
+   fputc(' ', f);
+   verif_hex(f, second->GetStr());
+   fputc(' ', f);
+
+   for (size_t idx = 0; idx < verif_rules.size(); idx++)
+   {
+      fprintf(f, "%s%s", (idx > 0) ? "|" : "", verif_rules[idx].c_str());
+   }
+
+   fputc('\n', f);
+}
+
+
+#endif /* UNCRUSTIFY_VERIF */
